@@ -170,12 +170,27 @@ def add_node(sel, n, probe=None):
     if probe:
       probe()
     return
-  _call_builder(sel, n)
+  ret = _call_builder(sel, n)
   if probe:
     probe()
   name = created_name(n)
+  # the three documented, equivalent ways of reaching the subspace(s) of the parameter just created
+  # (root.select(name, values) / root.select(name).select_values(values) / the selector the builder
+  # returned); the choice is a function of the definition so that a replay rebuilds the same calls
+  style = (sum(map(ord, name)) + len(n.get('children', []))) % 3
   for vals, ch in n.get('children', []):
-    add_node(sel.select(name, list(vals)), ch, probe)
+    if style == 0 or (style == 2 and ret is None):
+      sub = sel.select(name, list(vals))
+    else:
+      try:
+        sub = (sel.select(name) if style == 1 else ret).select_values(list(vals))
+      except ValueError:
+        # select_values validates first and reports every refusal as ValueError; the class of the
+        # refusal the model predicts is the one of select(name, values).  If THAT accepts the values
+        # the documented equivalents disagree and the refusal stands.
+        sel.select(name, list(vals))
+        raise
+    add_node(sub, ch, probe)
 
 
 def build_pc(n):
